@@ -431,10 +431,21 @@ class Tracer:
                 if not const_true:
                     self._add_fact(one, t, True)
                 if not const_true:
+                    pure_test = all(isinstance(c_.func, ast.Name) and c_.func.id in ('isinstance', 'len', 'hasattr', 'callable', 'id', 'type') for c_ in ast.walk(s.test) if isinstance(c_, ast.Call))
                     for r in self._block(s.body, [one], fi, depth):
                         r.loop -= 1
                         if self.iter_hook is not None and r.status in (None, 'continue'):
                             self.iter_hook(s, r)
+                        if pure_test and r.status in (None, 'continue'):
+                            # the loop is left after this iteration: its test is false on the values the iteration produced
+                            n_ev = len(r.events)
+                            try:
+                                again = self._expr(s.test, r, fi, depth)
+                            except AnalysisError:
+                                again = []
+                            if len(again) == 1 and again[0][0] is r:
+                                del r.events[n_ev:]
+                                self._add_fact(r, again[0][1], False)
                         if r.status in ('break', 'continue') or r.status is None:
                             r.status = None
                             outs.append(r)
